@@ -40,7 +40,8 @@ Record cst := {
 Inductive clab :=
 | LPeerSend (id : nat) (x : item) | LPeerEnd (id : nat) (k : endkind)
 | LNew (id : nat) | LDrop (id : nat)
-| LRecv | LGet (t id : nat) | LReput (t : nat) | LSetCb (id : nat) (wanted : bool) | LFinish.
+| LRecv | LGet (t id : nat) | LReput (t : nat) | LSetCb (id : nat) (wanted : bool) | LFinish
+| LClose (id : nat).                 (* Channel.close() called locally on a Channel object that is still held *)
 
 Definition fupd {A} (f : nat -> A) (i : nat) (v : A) : nat -> A := fun j => if Nat.eqb j i then v else f j.
 Fixpoint upd {A} (l : list A) (i : nat) (x : A) : list A :=
@@ -174,6 +175,18 @@ Definition cstep (c : ccfg) (s : cst) (l : clab) : option cst :=
                     regs := fupd (regs s) id (regs s id + (if wanted then 1 else 0));
                     errs_in := errs_in s; errs_out := errs_out s; eofs := eofs s; fin := fin s |}
       end
+  | LClose id =>
+      (* Channel.close(): nothing when already closed; otherwise (a CLOSE frame goes to the peer unless it closed first --
+         the outgoing direction is not part of this model) closed, receive-closed, ENDMARKER queued, unregistered and the
+         callback's endmarker delivered *)
+      let ch := cs s id in
+      if negb (held ch) || closed ch then None
+      else Some {| wire := wire s;
+                   cs := fupd (cs s) id {| alive := false; q := (match q ch with Some lq => Some (lq ++ [End]) | None => None end);
+                                           closed := true; rclosed := true; errs := errs ch; cb := None |};
+                   thr := thr s; sent := sent s; got := got s; lossless := lossless s;
+                   ends := fupd (ends s) id (ends s id + fires ch); regs := regs s;
+                   errs_in := errs_in s; errs_out := errs_out s; eofs := eofs s; fin := fin s |}
   | LFinish =>
       (* the receiver thread's epilogue, ChannelFactory._finished_receiving: finished = True, every registered
          channel _local_close(id, sendonly=True), every registered callback unregistered (endmarker fires) *)
